@@ -26,7 +26,7 @@ def index_classes(ln, rev):
     inr = [('pos%d' % v, ['NUMK0=%dLL' % v]) for v in range(0, ln)]
     return inr + [('below', ['NUMC0=(v<0)']), ('above', ['NUMC0=(v>=%dLL)' % ln])]
 
-def step_job(ctx, prefix, op, kinds, oracle=(), cap=3, nsteps=1, op2=None, extra_defs=(), timeout=300, mem=8, desc='', tag='', cuts=None, checks=(), typed_arrays=0):
+def step_job(ctx, prefix, op, kinds, oracle=(), cap=3, nsteps=1, op2=None, extra_defs=(), timeout=300, mem=5, desc='', tag='', cuts=None, checks=(), typed_arrays=0):
     ops = opcodes(ctx)
     if op not in ops or (op2 and op2 not in ops):
         return None
